@@ -149,6 +149,25 @@ def gen_program(case_seed, force=None):
             req = [k for k, p in enumerate(pos) if p[2] is None]
             n = (req[-1] + 1) if req else 0
             names = tuple(p[0] for p in pi if p[1] == KO and p[2] is None)
+        else:
+            # now and then the call written cannot be honoured by the callee at all (mask stage of the
+            # declaration fails): discovery has to fall back to the plain signature (C06, C07, C15)
+            if 'taints' not in force and rnd.random() < 0.07:
+                opts = []
+                if not ivp:
+                    opts.append('too-many-positionals')
+                if not ivk:
+                    opts.append('unknown-keyword')
+                if [x for x in ipos[:n] if x in [p[0] for p in pi if p[1] == PK]]:
+                    opts.append('duplicate')
+                if opts:
+                    bad = rnd.choice(opts)
+                    if bad == 'too-many-positionals':
+                        n = len(ipos) + 1
+                    elif bad == 'unknown-keyword':
+                        names = names + ('zq',)
+                    else:
+                        names = names + (rnd.choice([x for x in ipos[:n] if x in [p[0] for p in pi if p[1] == PK]]),)
         ctx = force.get('ctx') or rnd.choice(CONTEXTS)
         if ctx == 'return' and ci != ncalls - 1:
             ctx = 'assign'
@@ -580,7 +599,7 @@ def check_program(ctx, case_seed, want=('C05', 'C06', 'C07'), force=None, varian
         S = sigtools.signature(target)
     except Exception as e:
         for p in want:
-            if p in ('C07', 'C05', 'C06'):
+            if p in ('C07', 'C05', 'C06', 'C15'):
                 ctx.violation(p, 'AutoBoundary', 'retrieval-raises-%s' % type(e).__name__,
                               'sigtools.signature raised %s on a generated forwarding program: %s' % (type(e).__name__, e),
                               dict(w, exception=repr(e)), rp)
